@@ -49,6 +49,28 @@ CMP_METHODS = {"core::cmp::PartialEq::eq": "eq", "core::cmp::PartialEq::ne": "ne
                "core::cmp::PartialOrd::le": "le", "core::cmp::PartialOrd::gt": "gt", "core::cmp::PartialOrd::ge": "ge"}
 
 
+
+_AC_KEEP_FULL = {EVAL_BINOP, EVAL_COMPARE, "minijinja::compiler::ast::List::as_const", "minijinja::compiler::ast::Map::as_const",
+                 "minijinja::compiler::ast::Tuple::as_const", "minijinja::compiler::ast::const_values"}
+
+
+def _ac(prog):
+    """Expr::as_const read through the private helpers an arm of it may have been moved into (`Compare::as_const`);
+    the functions the rules know by name stay calls"""
+    from .. import inline
+    return inline.view(prog, prog.fn(AS_CONST),
+                       keep=lambda t: t in _AC_KEEP_FULL or t.startswith("minijinja::value::") or not t.startswith("minijinja::compiler::ast::"),
+                       allow_pub=True, max_blocks=90)
+
+
+def _ac_closures(prog):
+    from .. import inline
+    out = list(prog.closures_of(AS_CONST))
+    for h in inline.inlined_helpers(_ac(prog)):
+        out += prog.closures_of(h)
+    return out
+
+
 def sem_name(c):
     # comparisons: the declared trait method with a (possibly referenced) Value receiver
     if c.path in CMP_METHODS:
@@ -333,7 +355,7 @@ def run(ctx):
 
     # ---- K3
     n3 = 0
-    scope = [prog.fn(AS_CONST), fb, fc] + prog.closures_of(AS_CONST) + prog.closures_of(EVAL_COMPARE) + prog.closures_of(EVAL_BINOP)
+    scope = [_ac(prog), fb, fc] + _ac_closures(prog) + prog.closures_of(EVAL_COMPARE) + prog.closures_of(EVAL_BINOP)
     ce = prog.fn(COMPILE_EXPR)
     for f in scope + [ce]:
         for c in f.calls():
@@ -410,11 +432,11 @@ def run(ctx):
     ctx.ob("C04.K4.vm-truthiness-defers-to-Value::is_true", ub.path,
            bool(ub.calls_to("minijinja::value::Value::is_true")), "", ub.loc)
     fold_not = False
-    for f in [prog.fn(AS_CONST)] + prog.closures_of(AS_CONST):
+    for f in [_ac(prog)] + _ac_closures(prog):
         if f.calls_to("minijinja::value::Value::is_true") and any(
                 s.get("rv", {}).get("k") == "un" and s["rv"]["op"] == "Not" for _, _, s in f.all_stmts()):
             fold_not = True
-    ctx.ob("C04.K4.folder-not-negates-is_true", AS_CONST, fold_not, "", prog.fn(AS_CONST).loc)
+    ctx.ob("C04.K4.folder-not-negates-is_true", AS_CONST, fold_not, "", _ac(prog).loc)
     vm_not = vm_regs.get("Not", set())
     ctx.ob("C04.K4.vm-not-negates-is_true", "eval_impl|Not",
            any(c.name == "minijinja::utils::UndefinedBehavior::is_true" for c in arms.calls_in(ev, vm_not)) and vm_tab["Not"][1],
@@ -427,10 +449,10 @@ def run(ctx):
     # that does not go through the run-time operation.
     import re as _re
     nfab = 0
-    ac_ = prog.fn(AS_CONST)
+    ac_ = _ac(prog)
     sw9 = arms.enum_switches(prog, ac_, "minijinja::compiler::ast::Expr")
     cmp_region = arms.arm_regions(prog, ac_, sw9[0][0], "minijinja::compiler::ast::Expr").get("Compare", set()) if sw9 else set()
-    for f in [prog.fn(AS_CONST)] + prog.closures_of(AS_CONST):
+    for f in [_ac(prog)] + _ac_closures(prog):
         for c in f.calls():
             n = c.name
             if not (_re.search(r"From<.*> for minijinja::value::Value>::from$", n) or n.startswith("minijinja::value::Value::from")):
@@ -527,7 +549,7 @@ def run(ctx):
            "an iteration over the links of a comparison chain can skip compile_expr on the link's operand", gcc.loc)
 
     # ---- K6: unary minus and comparison chains
-    ac = prog.fn(AS_CONST)
+    ac = _ac(prog)
     UNOP = "minijinja::compiler::ast::UnaryOpKind"
     usw = arms.enum_switches(prog, ac, UNOP)
     ctx.need(usw, "C04.K6: as_const has no switch on UnaryOpKind")
